@@ -4,6 +4,7 @@
   is definitional in the model and tied to the code by the correspondence check.)
 -/
 import RapidModel.Generated.Consts
+import RapidModel.Generated.CallOrders
 import RapidProofs.Shrink
 import RapidProofs.TranslatedEq
 import RapidProofs.TranslatedEngineEq
@@ -96,5 +97,28 @@ theorem source_doCheck_seed (E : Go.CEnv) (checks : Nat) (hc : checks < 2 ^ 62) 
     | none => rw [hfe] at hbug; cases hbug
     | some x => dsimp only; split <;> rfl
   exact ⟨_, rfl, hs⟩
+
+/-- `checkTB` re-read from /repo statement by statement: the seed offered in a failure message is the one `doCheck` hands back — the seed of the failing test case of the generation loop (`source_doCheck_seed`), and none (0) when the failure came from a fail file (S193 offered the seed recorded in the file) -/
+theorem checkTB_body_source : Rapid.Generated.body_checkTB =
+    ["{", "tb.Helper()", "checks := flags.checks", "if testing.Short() {", "checks /= 5", "}", "start := time.Now()",
+     "valid, invalid, earlyExit, seed, failfile, buf, err1, err2 := doCheck(tb, deadline, checks, baseSeed(), flags.failfile, true, prop)",
+     "dt := time.Since(start)", "if err1 == nil && err2 == nil {",
+     "if valid == checks || (earlyExit && valid > 0) {", "tb.Logf(\"[rapid] OK, passed %v tests (%v)\", valid, dt)",
+     "} else {", "tb.Errorf(\"[rapid] only generated %v valid tests from %v total (%v)\", valid, valid+invalid, dt)",
+     "}", "} else {", "if failfile == \"\" && !flags.nofailfile {", "_, failfile = failFileName(tb.Name())",
+     "out := captureTestOutput(tb, prop, buf)", "err := saveFailFile(failfile, rapidVersion, out, seed, buf)",
+     "if err != nil {", "tb.Logf(\"[rapid] %v\", err)", "failfile = \"\"", "}", "}", "var repr string", "switch {",
+     "case failfile != \"\" && seed != 0:",
+     "repr = fmt.Sprintf(\"-rapid.failfile=%q (or -rapid.seed=%d)\", failfile, seed)", "case failfile != \"\":",
+     "repr = fmt.Sprintf(\"-rapid.failfile=%q\", failfile)", "case seed != 0:",
+     "repr = fmt.Sprintf(\"-rapid.seed=%d\", seed)", "}", "name := regexp.QuoteMeta(tb.Name())",
+     "if traceback(err1) == traceback(err2) {", "if err2.isStopTest() {",
+     "tb.Errorf(\"[rapid] failed after %v tests: %v\\nTo reproduce, specify -run=%q %v\\nFailed test output:\", valid, err2, name, repr)",
+     "} else {",
+     "tb.Errorf(\"[rapid] panic after %v tests: %v\\nTo reproduce, specify -run=%q %v\\nTraceback:\\n%vFailed test output:\", valid, err2, name, repr, traceback(err2))",
+     "}", "} else {",
+     "tb.Errorf(\"[rapid] flaky test, can not reproduce a failure\\nTo try to reproduce, specify -run=%q %v\\nTraceback (%v):\\n%vOriginal traceback (%v):\\n%vFailed test output:\", name, repr, err2, traceback(err2), err1, traceback(err1))",
+     "}", "_ = checkOnce(newT(tb, newBufBitStream(buf, false), true, nil), prop)", "}", "if tb.Failed() {",
+     "tb.FailNow()", "}", "}"] := by rfl
 
 end Rapid.C07
